@@ -61,6 +61,38 @@ Definition check_mal (c : mal_case) : bool :=
   | Some (Known m') => (kind =? 0) && (msg_index B0 m' =? idx) && bytes_eqb (as_vec0 m') re
   end.
 
+(** framed streams: (messages, the bytes msgs::write produced for them back to back, outcome:
+    0 = msgs::read / read_message / from_reader returned them one by one, equal, nothing left) *)
+Definition write0 (m : msg0) : bytes := frame (as_vec0 m).
+Definition read0 (bs : bytes) := read MAX_MESSAGE_SIZE (table B0) bs.
+Fixpoint same_all (ms : list msg0) (ds : list (decoded msg0)) : bool :=
+  match ms, ds with
+  | [], [] => true
+  | m :: ms', Known m' :: ds' =>
+      (msg_index B0 m' =? msg_index B0 m) && bytes_eqb (as_vec0 m') (as_vec0 m) && same_all ms' ds'
+  | _, _ => false
+  end.
+Definition model_stream (ms : list msg0) (bs : bytes) : N :=
+  match read_stream MAX_MESSAGE_SIZE (table B0) (length ms) bs with
+  | Some (ds, []) => if same_all ms ds then 0 else 1
+  | _ => 1
+  end.
+Definition stream_case := (list msg0 * bytes * N)%type.
+Definition check_stream (c : stream_case) : bool :=
+  let '(ms, bs, out) := c in
+  bytes_eqb (concat (map write0 ms)) bs && (model_stream ms bs =? out).
+
+(** one msgs::read on a byte stream that is not (necessarily) a frame:
+    (bytes, kind, index, re-encoded, bytes left on the stream afterwards) *)
+Definition fmal_case := (bytes * N * N * bytes * N)%type.
+Definition check_fmal (c : fmal_case) : bool :=
+  let '(bs, kind, idx, re, remaining) := c in
+  match read0 bs with
+  | None => kind =? 1
+  | Some (Unknown ty, r) => (kind =? 4) && (ty =? idx) && (lenN r =? remaining)
+  | Some (Known m', r) => (kind =? 0) && (msg_index B0 m' =? idx) && bytes_eqb (as_vec0 m') re && (lenN r =? remaining)
+  end.
+
 (** StreamedPSBT: (view of the PSBT that was encoded, what the decoder produced: per-input
     witness_utxo after decoding, whether a non_witness_utxo was retained anywhere, flags) *)
 #[global] Instance Eqb_txout : Eqb txout := txout_eqb.
